@@ -211,7 +211,7 @@ def run(ctx):
         ctx, specs,
         rule="trigger (failure per flavour, SIGINT at every explored point, shutdown(), "
              "MetaRunner.stop()) x asyncio population x trio population x blocked thread x every "
-             "schedule within the deviation bound; non-trivial = more than one schedule executed",
+             "schedule within the deviation bound; non-trivial = a schedule with at least one deviation from the default one (all explored schedules are distinct)",
         bounds={"deviation_bound": bound, "granularity": "synchronisation operations" + (
             "" if ctx.quick else "; source lines of the runner package at bound 1 for the "
             "late / child / shielded populations"),
